@@ -3,6 +3,7 @@ package drivers
 import (
 	"encoding/json"
 	"fmt"
+	"strings"
 	"math/rand"
 	"net"
 	"time"
@@ -150,9 +151,35 @@ type cerVariant struct {
 	Local      string
 	Configured []net.IP
 	Note       string
+	Dual       bool // the server's dictionary defines application 777 twice: as auth and as acct
 }
 
-func runCER(id int, c *cerSpec, v cerVariant, dapps []appRef) cerLine {
+const dualXML1 = `<?xml version="1.0" encoding="UTF-8"?><diameter><application id="777" type="auth" name="Dual-Auth"></application></diameter>`
+const dualXML2 = `<?xml version="1.0" encoding="UTF-8"?><diameter><application id="777" type="acct" name="Dual-Acct"></application></diameter>`
+
+var dualParser *dict.Parser
+
+func getDualParser(repo string) *dict.Parser {
+	if dualParser == nil {
+		xs, err := abs.DefaultXML(repo)
+		if err != nil {
+			panic(err)
+		}
+		p, _ := dict.NewParser()
+		order, _ := abs.DefaultLoadOrder(repo)
+		for _, n := range order {
+			if err := p.Load(strings.NewReader(xs[n])); err != nil {
+				panic(err)
+			}
+		}
+		p.Load(strings.NewReader(dualXML1))
+		p.Load(strings.NewReader(dualXML2))
+		dualParser = p
+	}
+	return dualParser
+}
+
+func runCER(id int, c *cerSpec, v cerVariant, dapps []appRef, repo string) cerLine {
 	c.Items = fixItems(c.Items)
 	set := &sm.Settings{OriginHost: srvSettings.OriginHost, OriginRealm: srvSettings.OriginRealm, VendorID: 13, ProductName: "verif-srv"}
 	cs := cerSettings{OH: string(set.OriginHost), OR: string(set.OriginRealm), HostIPs: [][]int{}, LocalIPs: [][]int{}, Local: v.Local}
@@ -207,7 +234,10 @@ func runCER(id int, c *cerSpec, v cerVariant, dapps []appRef) cerLine {
 		}
 		l.Obs.Closed = s.Conn.Closed()
 	} else {
-		l.Obs.Closed = s.Conn.WaitClosed(3 * time.Second)
+		// Close, if any, happens in the handler before it returns: once the reader is parked
+		// again (or the transport is closed) the outcome is definite - no grace period needed
+		s.Conn.WaitReaderBlocked(3 * time.Second)
+		l.Obs.Closed = s.Conn.Closed()
 		if len(s.fired()) > 0 && s.fired()[0].Meta {
 			l.Obs.Meta.Present = true
 		}
@@ -225,6 +255,16 @@ func CER(a Args) error {
 	if err != nil {
 		return err
 	}
+	// a further dictionary pair loaded on top of the embedded ones defines application 777
+	// twice, as auth and as acct (the state machine advertises from dict.Default, so the
+	// default dictionary itself is extended, in this process only)
+	if err := dict.Default.Load(strings.NewReader(dualXML1)); err != nil {
+		return err
+	}
+	if err := dict.Default.Load(strings.NewReader(dualXML2)); err != nil {
+		return err
+	}
+	dapps = append(dapps, appRef{T: "auth", ID: abs.B4(777)}, appRef{T: "acct", ID: abs.B4(777)})
 	base := cerVariant{Local: "10.0.0.1:3868", Note: "derived-ipv4"}
 	id := 0
 	if a.Cases != "" {
@@ -234,7 +274,7 @@ func CER(a Args) error {
 				return err
 			}
 			id++
-			out.Emit(runCER(id, &c, base, dapps))
+			out.Emit(runCER(id, &c, base, dapps, a.Repo))
 			return nil
 		})
 		if err != nil {
@@ -249,7 +289,7 @@ func CER(a Args) error {
 		{Local: "127.0.0.1:3868", Note: "derived-loopback"},
 		{Local: "[2001:db8::1]:3868", Configured: []net.IP{net.ParseIP("192.0.2.7")}, Note: "configured-ipv6-endpoint"},
 	}
-	ids := [][]int{abs.B4(4), abs.B4(3), abs.B4(12345), abs.B4(1), abs.B4(16777251), abs.B4(0xffffffff), abs.B4(16777238), abs.B4(77)}
+	ids := [][]int{abs.B4(4), abs.B4(3), abs.B4(12345), abs.B4(1), abs.B4(16777251), abs.B4(0xffffffff), abs.B4(16777238), abs.B4(77), abs.B4(777), abs.B4(777)}
 	randItem := func() appItem {
 		mk := func() appItem {
 			return appItem{T: []string{"acct", "auth"}[r.Intn(2)], ID: ids[r.Intn(len(ids))], Inner: []appItem{}}
@@ -275,7 +315,7 @@ func CER(a Args) error {
 			c.Items = append(c.Items, randItem())
 		}
 		id++
-		out.Emit(runCER(id, &c, variants[r.Intn(len(variants))], dapps))
+		out.Emit(runCER(id, &c, variants[r.Intn(len(variants))], dapps, a.Repo))
 	}
 	return nil
 }
